@@ -495,6 +495,38 @@ def correspondence(ctx, model_ok, tmp):
             # end of the history, otherwise of the collection the operation named plus a random quarter of the others
             touched = c
             full_probe = (step % 3 == 2) or step == n_steps - 1 or not ctx.quick()
+            # every fourth round of probes runs inside one caching context (the answers must be the same: its summary / record
+            # caches are filled by the first lookups and serve the later ones)
+            import contextlib as _cl
+
+            probe_ctx = _cl.ExitStack()
+            if rng.random() < 0.25:
+                probe_ctx.enter_context(reg.caching_context())
+                ctx.count("probes-inside-caching-context")
+            # a search over two collections at once: the union of their members, each with its own run
+            known_c = [c_ for c_ in o_colls if o_colls[c_] in "RT"]
+            if len(known_c) >= 2 and o_types and rng.random() < 0.5:
+                c1, c2 = rng.sample(known_c, 2)
+                t_ = rng.choice(sorted(o_types))
+                want_u = sorted(set(o_members(c1, t_)) | set(o_members(c2, t_)))
+                byid_ = {rf.id: i for i, rf in refs.items()}
+                ctx.count("two-collection-search")
+                for api in ("Butler.query_datasets", "Query.datasets"):
+                    try:
+                        if api == "Butler.query_datasets":
+                            rows_ = b.query_datasets(tname(t_), collections=[cname(c1), cname(c2)], find_first=False, explain=False, limit=None)
+                        else:
+                            with b.query() as q_:
+                                rows_ = list(q_.datasets(tname(t_), collections=[cname(c1), cname(c2)], find_first=False))
+                        got_u = sorted({byid_[x.id] for x in rows_})
+                        wrong_run = [(byid_[x.id], x.run) for x in rows_ if byid_[x.id] in o_ds and x.run != cname(o_ds[byid_[x.id]][2])]
+                    except Exception as e:
+                        got_u, wrong_run = classify(e), []
+                    if got_u != want_u or wrong_run:
+                        viol(f"after {ops[-4:]}: {api}(type {t_}, collections [{c1}, {c2}]) = {got_u}"
+                             + (f" with runs {wrong_run[:2]} (a dataset belongs to exactly one RUN, the one it was inserted into)" if wrong_run else "")
+                             + f", the history says {want_u}", f"two-collections:{ops}:{c1}:{c2}:{t_}",
+                             {"kind": "history", "ops": ops, "collections": [c1, c2], "type": t_})
             for c in range(NC):
                 for t in range(NT):
                     if t not in o_types:
@@ -534,6 +566,7 @@ def correspondence(ctx, model_ok, tmp):
                                  {"kind": "history", "ops": ops})
                         # uniqueness as observed
                     ctx.evaluations += 1
+            probe_ctx.close()
             # ---- the registry's own tables (read from the SQLite file): dataset rows, tag rows and collection rows are exactly what
             # the history says; the per-collection summaries (which queries use to skip collections) cover every membership
             if (step % 3 == 2) or step == n_steps - 1:
@@ -575,6 +608,35 @@ def correspondence(ctx, model_ok, tmp):
         if {"refused", "accepted"} <= flags:
             ctx.nontrivial.add(tuple(ops))
         ctx.sample(ops[:12], cap=3)
+
+    # ---- one call over more than a thousand datasets (the managers cut long IN lists into batches): associate, disassociate and
+    # removeDatasets of n datasets, n not a multiple of the batch size, leave exactly what the history says
+    n_big = 1003 if ctx.quick() else 2503
+    reg.insertDimensionData("instrument", {"name": "K"})
+    reg.insertDimensionData("detector", *[{"instrument": "K", "id": i_, "full_name": f"k{i_}"} for i_ in range(n_big)])
+    dt_big = DatasetType("dt_big", {"instrument", "detector"}, "StructuredDataDict", universe=b.dimensions)
+    reg.registerDatasetType(dt_big)
+    reg.registerRun("big_run"), reg.registerCollection("big_tag", CollectionType.TAGGED)
+    big_refs = reg.insertDatasets(dt_big, [{"instrument": "K", "detector": i_} for i_ in range(n_big)], run="big_run")
+
+    def count_in(coll):
+        return len(list(reg.queryDatasets(dt_big, collections=[coll])))
+
+    for label, call, where, want in (
+        (f"associate({n_big})", lambda: reg.associate("big_tag", big_refs), "big_tag", n_big),
+        (f"disassociate({n_big - 1})", lambda: reg.disassociate("big_tag", big_refs[1:]), "big_tag", 1),
+        (f"removeDatasets({n_big - 2})", lambda: reg.removeDatasets(big_refs[2:]), "big_run", 2),
+    ):
+        ctx.evaluations += 1
+        ctx.count("bulk-call")
+        try:
+            call()
+            got = count_in(where)
+        except Exception as e:
+            got = classify(e)
+        if got != want:
+            viol(f"{label} in one call: {where} then holds {got} datasets, the history says {want}", f"bulk:{label}", {"kind": "bulk", "call": label})
+            break
 
     if model_ok:
         got = core.driver(req)
